@@ -117,6 +117,57 @@ def readDecode (hp : Bool) (ws : List Word) : Option RView :=
 
 end SlabRead
 
+/-! ### the temperature record reader (`camxfiles/temperature/Read.py`)
+
+It counts the records that carry the time of the first one (comparing the (date, time) pairs, not their
+difference), takes the step from the next record and the end from the *last* record of the file, and fetches the
+data by position: step `i` starts at record `i · (layers + 1)`, its first record is the surface slab. -/
+namespace SlabRead
+open Words Slab
+
+/-- index of the first record (from `n` on) whose (date, time) differs from `start`; `none` when the file ends first -/
+def firstDiff (start : DT) (rs : List (List Word)) : Nat → Nat → Option Nat
+  | 0, _ => none
+  | fuel + 1, n =>
+    match rs[n]? with
+    | none => none
+    | some r => if recDT r ≠ start then some n else firstDiff start rs fuel (n + 1)
+
+def readTempRows (rs : List (List Word)) : Option RView :=
+  match rs with
+  | [] => none
+  | r0 :: _ =>
+    let start := recDT r0
+    match firstDiff start rs rs.length 1 with
+    | none => none
+    | some m =>
+      match rs[m]?, rs.getLast? with
+      | some r1, some rl =>
+        let nl := m - 1
+        let step := timediff start (recDT r1)
+        let cnt := Int.fdiv (timediff start (recDT rl)) step + 1        -- `int(diff // step) + 1`
+        if cnt < 0 then none else
+        -- the data maps need whole steps; more steps in the file than `cnt` overrun the output array
+        if rs.length % m ≠ 0 ∨ ((rs.length / m : Nat) : Int) > cnt then none else
+        let T := rs.length / m
+        let eod : Int := if step % 2 = 1 then 24 else 2400
+        let stop := timeadd eod (timeadd eod (recDT rl) step) 0
+        match trange eod step stop (rs.length + 1) (timeadd eod start 0) with
+        | none => none
+        | some ts =>
+          let zero := List.replicate (r0.length - 4) (0 : Word)
+          let surf := (List.range T).map (fun i => recCells (rs.getD (i * m) []))
+          let air := (List.range T).flatMap (fun i => (List.range nl).map (fun k => recCells (rs.getD (i * m + 1 + k) [])))
+          some { nt := cnt.toNat, nz := nl, times := ts,
+                 vars := [surf ++ List.replicate (cnt.toNat - T) zero, air ++ List.replicate ((cnt.toNat - T) * nl) zero] }
+      | _, _ => none
+
+def readTempDecode (ws : List Word) : Option RView :=
+  let cells := ws.headD 0 / 4 - 2
+  if ws.length % (cells + 4) ≠ 0 then none else readTempRows (chunk (cells + 4) ws ws.length)
+
+end SlabRead
+
 namespace SlabRead
 open Wire Words
 
@@ -125,10 +176,10 @@ def showRView (v : RView) : String :=
   let vs := ";".intercalate (v.vars.map (fun l => showWords l.flatten))
   s!"nt={v.nt} nz={v.nz} times={ts} vars={vs}"
 
-/-- `bin slab-rd <0|1> <hex>`: the record reader of the one3d family (0) or of height/pressure files (1) -/
+/-- `bin slab-rd <0|1|2> <hex>`: the record reader of the one3d family (0), of height/pressure files (1), of temperature files (2) -/
 def run : List String → String
   | ["slab-rd", hp, hex] => match parseWords hex with
-    | some ws => (match readDecode (hp == "1") ws with
+    | some ws => (match (if hp == "2" then readTempDecode ws else readDecode (hp == "1") ws) with
       | some v => "ok " ++ showRView v
       | none => "err read")
     | none => "err parse"
